@@ -61,7 +61,8 @@ RULE = ("scripted watch streams of 1-4 objects (with/without uid), 2-12 events, 
         "placed EXACTLY on last_activity+idle_timeout and ±1 tick (adaptive: read off the worker's own wait_for), each "
         "stream run under both orders of same-instant timers (fifo/lifo; rng in thorough). A case is distinct by its "
         "label-name/key sequence; non-trivial when it contains a ttake (timeout with a filled queue: the found event is taken in the same segment), a same-instant "
-        "retire+re-insert, an arrival during busy, a limit-blocked pending worker, a kill, a failure or a drained EOS.")
+        "retire+re-insert, an arrival during busy, a limit-blocked pending worker, a kill, a failure or a drained EOS. "
+        "Plus an exhaustive grid of uid-less identities through the real get_uid (216 cases, same object <=> same key).")
 TRUSTED = ["CPython asyncio (Queue, wait_for, timeouts, Condition, Task cancellation) — exercised, not modelled",
            "harness/props/sim_c01.py hook placement: each label is logged inside the atomic segment it names",
            "the actual order CPython gives to same-instant timers is not predicted: both orders are executed"]
